@@ -172,6 +172,7 @@ struct Engine : MemView {
 
         Engine(const Plan &p, const RunOpts &o) : plan(p), opts(o), mon(p, this), fillrng(p.fill)
         {
+                mon.focus = o.focus;
                 // twin runs with replaced initial contents: the model starts from the same contents
                 size_t flat = 0;
                 if (!o.override_init.empty())
@@ -212,7 +213,7 @@ struct Engine : MemView {
         void do_trigger(int cmd, int type);
         void do_hexit(int status);
         void drain();
-        void roundtrip(int cmd);
+        void roundtrip(int cmd, int evcmd = -1, int evtype = 0, long evdelay = 0);
         void exec(const Op &o);
         void note_fp(int kind);
         void cover();
@@ -519,15 +520,15 @@ static cat_return_state h_write(const struct cat_command *cmd, const uint8_t *da
                 return CAT_RETURN_STATE_ERROR;
         e->note_fp(5);
         if (data != e->cmdbuf)
-                e->mon.fail("C06", "write-handler-buffer-pointer", "write handler received a data pointer that is not the command working buffer");
+                e->mon.fail_soft("C06", "write-handler-buffer-pointer", "write handler received a data pointer that is not the command working buffer");
         else if (data_size >= e->cmdcap)
-                e->mon.fail("C06", "write-handler-size-beyond-capacity", "data_size " + std::to_string(data_size) + " >= capacity " + std::to_string(e->cmdcap));
+                e->mon.fail_soft("C06", "write-handler-size-beyond-capacity", "data_size " + std::to_string(data_size) + " >= capacity " + std::to_string(e->cmdcap));
         else if (data[data_size] != 0)
-                e->mon.fail("C06", "write-handler-data-not-terminated", "data[data_size] != 0");
+                e->mon.fail_soft("C06", "write-handler-data-not-terminated", "data[data_size] != 0");
         if (!e->mon.dead()) {
                 if (cat_get_processed_command(e->obj, CAT_FSM_TYPE_ATCMD) != cmd)
-                        e->mon.fail("C13", "processed-command-differs-inside-handler", "cat_get_processed_command(ATCMD) is not the command whose handler is running");
-                e->mon.on_handler(ci, K_WRITE, FSM_CMD, bytes((const char *)data, data_size), data_size, args_num);
+                        e->mon.fail_soft("C13", "processed-command-differs-inside-handler", "cat_get_processed_command(ATCMD) is not the command whose handler is running");
+                e->mon.on_handler(ci, K_WRITE, FSM_CMD, bytes((const char *)data, std::min(data_size, e->cmdcap)), data_size, args_num);
         }
         return (cat_return_state)run_step(e, ci, K_WRITE, FSM_CMD, nullptr, nullptr, 0);
 }
@@ -569,16 +570,16 @@ static cat_return_state h_rt(int kind, const struct cat_command *cmd, uint8_t *d
         }
         size_t cap = fsm == FSM_CMD ? e->cmdcap : e->evcap;
         if (max != cap)
-                e->mon.fail("C06", "handler-capacity", "max_data_size " + std::to_string(max) + " but the buffer holds " + std::to_string(cap) + " bytes");
+                e->mon.fail_soft("C06", "handler-capacity", "max_data_size " + std::to_string(max) + " but the buffer holds " + std::to_string(cap) + " bytes");
         else if (*data_size >= cap)
-                e->mon.fail("C06", "handler-size-beyond-capacity", "*data_size " + std::to_string(*data_size) + " >= capacity " + std::to_string(cap));
+                e->mon.fail_soft("C06", "handler-size-beyond-capacity", "*data_size " + std::to_string(*data_size) + " >= capacity " + std::to_string(cap));
         else if (data[*data_size] != 0)
-                e->mon.fail("C06", "handler-data-not-terminated", "data[*data_size] != 0");
+                e->mon.fail_soft("C06", "handler-data-not-terminated", "data[*data_size] != 0");
         if (e->mon.dead())
                 return CAT_RETURN_STATE_ERROR;
         if (cat_get_processed_command(e->obj, (cat_fsm_type)fsm) != cmd)
-                e->mon.fail("C13", "processed-command-differs-inside-handler", "cat_get_processed_command is not the command whose handler is running");
-        e->mon.on_handler(ci, kind, fsm, bytes((const char *)data, *data_size), *data_size, max);
+                e->mon.fail_soft("C13", "processed-command-differs-inside-handler", "cat_get_processed_command is not the command whose handler is running");
+        e->mon.on_handler(ci, kind, fsm, bytes((const char *)data, std::min(*data_size, cap)), *data_size, max);
         int code = run_step(e, ci, kind, fsm, data, data_size, max);
         e->mon.on_handler_done(fsm, bytes((const char *)data, strnlen((const char *)data, max)));
         return (cat_return_state)code;
@@ -1665,7 +1666,7 @@ void Engine::exec(const Op &o)
                 last_state_valid = false;
                 break;
         case OP_ROUNDTRIP:
-                roundtrip((int)o.a);
+                roundtrip((int)o.a, o.b ? (int)o.b - 1 : -1, (int)o.c, (long)o.d);
                 break;
         case OP_SETVAR:
                 if (mon.config_idle() || !opts.monitor) {
@@ -1697,7 +1698,7 @@ void Engine::exec(const Op &o)
 // C07: AT<cmd>? -> take the text after "NAME=" -> scramble variables -> AT<cmd>=<text> -> compare.
 // This oracle is model-free; it runs to its end even if the model-based monitor has already objected, and
 // its own verdict (property C07) then takes precedence for this run.
-void Engine::roundtrip(int ci)
+void Engine::roundtrip(int ci, int evcmd, int evtype, long evdelay)
 {
         const CmdSpec &cs = plan.cmds[(size_t)ci];
         auto c07 = [&](const char *rule, const std::string &detail) {
@@ -1725,6 +1726,12 @@ void Engine::roundtrip(int ci)
                 before.push_back(var_bytes(ci, (int)v));
         size_t out0 = out.size();
         rx += "AT" + cs.name + "?\n";
+        if (evcmd >= 0) {
+                // an event arrives while the READ line is in flight
+                for (long i = 0; i < evdelay && !es.overrun; i++)
+                        service_once();
+                do_trigger(evcmd, evtype);
+        }
         if (!quiesce())
                 return;
         bytes resp = out.substr(out0);
@@ -1816,6 +1823,7 @@ RunResult run_plan(const Plan &p, const RunOpts &o)
         e.es.thread_switches = e.switches;
         e.es.blocked_on_mutex = e.blocked_on_mutex;
         r.viol = e.mon.viol;
+        r.soft_other = e.mon.soft_other;
         r.mon = e.mon.st;
         r.eng = e.es;
         r.hash = e.log.h;
